@@ -9,6 +9,9 @@
 //	       KV call trace with batch contents, what is readable after recovery)
 //	tan*   white-box: tan's record writer/reader (record.go) on byte buffers,
 //	       compared with Model/TanRecord.v byte for byte / record for record
+//	tanio  the real Tan over an FS that fails one log file Write call: records of
+//	       several 32 KB blocks, every write index; a save that returned success
+//	       must be completely readable after reopen
 //	crash  black-box: the real Pebble LogDB and Tan over the strict in-memory
 //	       file system, power cut at an FS operation, reopen, compare with the
 //	       reference log {acked, acked + in-flight}
@@ -45,6 +48,8 @@ func main() {
 			switch k := caseKind(line); {
 			case k == "kv":
 				runKVLine(line, obs, st)
+			case k == "tanio":
+				runTanIOLine(line, obs, st)
 			case strings.HasPrefix(k, "tan"):
 				runTanLine(line, obs, st)
 			case k == "crash":
